@@ -612,6 +612,85 @@ def r6_inclusive_spans(ctx):
     ctx.floor('C09.R6', 'length computations over inclusive spans', n, 2)
 
 
+# panic sites in the code that turns a problem into a diagnostic (pavexc::diagnostic::*), confirmed by reading: (function, kind) -> (count, why it cannot fire)
+REVIEWED_DIAGNOSTIC_PANIC_SITES = {
+    ('callable_definition::CallableDefSource::compute_from_item', 'assert:Overflow'): (1, 'span arithmetic on offsets rustdoc reported for this very file'),
+    ('callable_definition::CallableDefSource::compute_from_item', 'index:String'): (1, 'slice of the source by the byte offsets computed from the rustdoc span (C09.R5 decides the unit)'),
+    ('miette::convert_proc_macro_span', 'assert:Overflow'): (3, 'line/column arithmetic of proc-macro spans (C09.R6 decides the inclusive end)'),
+    ('miette::convert_rustdoc_span', 'assert:Overflow'): (1, 'line/column arithmetic of rustdoc spans (C09.R6)'),
+    ('registration::Registration::annotated_item', 'panic'): (1, 'stated belief: called only for registrations that come from an annotation'),
+    ('registration::Registration::attribute', 'expect'): (1, 'stated belief: same precondition'),
+    ('registration_locations::blueprint_registration_arg_span', 'assert:Overflow'): (2, '`len - 1` / `len - 2` under `if segments.len() >= 2`'),
+    ('registration_locations::blueprint_registration_arg_span', 'index:Punctuated'): (2, 'the two path segments indexed under `if segments.len() >= 2`'),
+    ('source_file::ParsedSourceFile::new', 'unwrap'): (1, 'syn parses a file rustc has just compiled for rustdoc'),
+}
+
+
+def _is_increment(b, bb):
+    """the Overflow assertion at `bb` checks `x + 1` (AddWithOverflow with the constant 1) on an unsigned integer"""
+    t = b.term(bb)
+    cl = op_place(t.get('cond') or {})
+    for st in b.stmts(bb):
+        rv = st.get('rv')
+        if rv and rv['k'] == 'bin' and rv.get('bop') in ('AddWithOverflow', 'Add') and any(o.get('int') == '1' for o in (rv['a'], rv['b']) if isinstance(o, dict)):
+            return True
+    return False
+
+
+def r7_diagnostic_code_does_not_panic(ctx):
+    ctx.rule('C09.R7', 'P3 audit with a reviewed table: the functions of pavexc::diagnostic (source spans, labels, registration locations, the sink) run exactly when '
+             'pavexc has something to report about the user\'s own source, whose shape pavexc does not control (a registration made through a '
+             '`#[track_caller]` helper, a macro, a call with fewer arguments than expected). Every panic site there — panic!/unwrap/expect, `[]` on a '
+             'collection or a str, an arithmetic / bounds assertion; `debug_assert!`s excepted — is one of the reviewed sites, each with the reason it '
+             'cannot fire. A new one turns "exits non-zero with a diagnostic" into a crash for some way of writing the blueprint.')
+    D = 'pavexc::diagnostic::'
+    PAN = ('core::panicking::', 'std::rt::begin_panic', 'core::option::unwrap_failed', 'core::result::unwrap_failed', 'core::option::expect_failed')
+    UNW = {'core::option::Option::unwrap', 'core::option::Option::expect', 'core::result::Result::unwrap', 'core::result::Result::expect',
+           'core::result::Result::unwrap_err', 'core::result::Result::expect_err'}
+    found, where, scanned, auto = {}, {}, 0, {}
+    for b in ctx.fb.bodies('pavexc'):
+        if b.is_promoted or not b.nid.startswith(D):
+            continue
+        scanned += 1
+        fn = b.nroot[len(D):]
+        for bb, t in b.calls():
+            c = callee(t) or ''
+            if (t.get('mo') or '') in ('debug_assert', 'debug_assert_eq', 'debug_assert_ne'):
+                continue
+            kind = None
+            if c.startswith(PAN):
+                kind = 'panic'
+            elif c in UNW:
+                kind = c.split('::')[-1]
+                if t['aty'] and ('PoisonError' in t['aty'][0] or 'MutexGuard' in t['aty'][0] or 'RwLockReadGuard' in t['aty'][0] or 'RwLockWriteGuard' in t['aty'][0]):
+                    auto['lock'] = auto.get('lock', 0) + 1        # `.lock().expect(..)`: fires on mutex poisoning only, wherever it is written
+                    continue
+            elif c in ('core::ops::index::Index::index', 'core::ops::index::IndexMut::index_mut'):
+                ty = strip_generics((t['aty'][0] if t['aty'] else '').replace('&mut ', '').lstrip('&'))
+                kind = 'index:' + ty.split('::')[-1].split('<')[0]
+            if kind:
+                found[(fn, kind)] = found.get((fn, kind), 0) + 1
+                where.setdefault((fn, kind), b.loc(bb, t))
+        for bb in b.live_blocks():
+            t = b.term(bb)
+            if t and t['k'] == 'assert' and (t.get('mo') or '') not in ('debug_assert', 'debug_assert_eq', 'debug_assert_ne'):
+                kind = 'assert:' + str(t.get('msg')).split(' ')[0].split('{')[0]
+                if kind == 'assert:Overflow' and _is_increment(b, bb):
+                    auto['increment'] = auto.get('increment', 0) + 1    # `n += 1` on a usize counter: one step per diagnostic / item, never 2^64 of them
+                    continue
+                found[(fn, kind)] = found.get((fn, kind), 0) + 1
+                where.setdefault((fn, kind), b.loc(bb, t))
+    for key, nsites in sorted(found.items()):
+        allowed = REVIEWED_DIAGNOSTIC_PANIC_SITES.get(key, (0, None))
+        ok = nsites <= allowed[0]
+        ctx.ob('C09.R7', 'diagnostic-panic-site|%s|%s' % key, ok, where[key],
+               '%d site(s) of kind %s in %s; reviewed: %d%s' % (nsites, key[1], key[0], allowed[0], (' (%s)' % allowed[1]) if ok else
+                                                              ' — a panic site that nobody has argued away, on the path that reports the user\'s errors'))
+    ctx.floor('C09.R7', 'bodies of pavexc::diagnostic scanned', scanned, 60)
+    ctx.count('diagnostic_panic_sites_discharged_by_class', sum(auto.values()))
+    ctx.floor('C09.R7', 'panic sites found in pavexc::diagnostic (positive control)', sum(found.values()) + sum(auto.values()), 8)
+
+
 def check(ctx):
     r4_nothing_assumes_success_before_the_gate(ctx)
     r1_no_silent_failure(ctx)
@@ -619,3 +698,4 @@ def check(ctx):
     r3_progress_flag(ctx)
     r5_str_slicing(ctx)
     r6_inclusive_spans(ctx)
+    r7_diagnostic_code_does_not_panic(ctx)
